@@ -171,6 +171,10 @@ def stepCore (tol : Tol) (st : St) (j : Json) : Except String (St × Json) := do
           st := st'
           vs := vs ++ [v]
         pure (FOp.extend vs)
+      | "extendfrom" => do
+        -- `tgt.extend(other_regions_object)`: the elements of the other object's list, as they are now
+        let src ← getRef st (← field j "src")
+        pure (FOp.extend (regionsItems src))
       | "insert" => do
         let (v, st') ← one st "val"; st := st'
         pure (FOp.insert (← fInt j "idx") v)
